@@ -4,7 +4,7 @@ import re
 
 from ..extract import AnalysisError, REPO
 from ..facts import walk, strip, callee, calls_to, access_path, local_name
-from ..symx import SymEval, Poly, Unsupported, app, var, num, single_atom, atom_fn, atom_args, contains_atom, vkey
+from ..symx import SymEval, Poly, Unsupported, app, var, num, single_atom, atom_fn, atom_args, contains_atom, vkey, unkey
 from ..trace import Tracer
 from ..panics import Audit
 
@@ -160,7 +160,24 @@ def run(ck, F, tier):
         src_ok = en[0].args[0] == var("self.encoder") and "input" in repr(en[0].args[1])
         p_ok = pu[0].args[1] == ENCV and any("self.puncturer" in repr(g) and p for g, p in pu[0].guards)
         tgt, val = asg[0].args
-        st_ok = "output" in repr(tgt) and "is_one" in repr(val) and "zip" in repr(asg[0].loops[-1]) and "puncture" in repr(asg[0].loops[-1])
+        # output[i] = is_one(encoded[i]): the two collections are walked whole and in lockstep, encoded being the codeword punctured when a
+        # puncturer is present
+        from ..idioms import zip_components, optional_stage
+        lp_ = asg[0].loops[-1] if asg[0].loops else None
+        comps = zip_components(lp_[2]) if lp_ is not None and lp_[0] == "iter" and len(asg[0].loops) == 1 else None
+        st_ok = False
+        if comps is not None and len(comps) == 2 and any(c_ == var("output") for c_ in comps):
+            other = [c_ for c_ in comps if c_ != var("output")]
+            st_ok = len(other) == 1 and optional_stage(other[0], pu[0].callee, ENCV) == var("self.puncturer")
+            va = single_atom(val) if isinstance(val, Poly) else None
+            if va is not None and atom_fn(va).rsplit("::", 1)[-1] in ("from", "into") and len(atom_args(va)) == 1:
+                va = single_atom(atom_args(va)[0]) if isinstance(atom_args(va)[0], Poly) else None     # u8::from(bool): true = 1, false = 0
+            if va is not None and atom_fn(va).endswith("::is_one"):
+                bit_ok = va is not None and atom_fn(va).endswith("::is_one") and "elem(" in repr(atom_args(va)[0])
+            else:
+                bit_ok = va is not None and atom_fn(va) == "ite" and "is_one(elem(" in repr(atom_args(va)[0]) \
+                    and unkey(atom_args(va)[1]) == num(1) and unkey(atom_args(va)[2]) == num(0)
+            st_ok = st_ok and "elem(output" in repr(tgt) and bit_ok
         asserted = len(te.asserts) >= 1
         ok = bitmap and src_ok and p_ok and st_ok and asserted
         why = "input bytes -> GF2 by b == 1 (%s); encoder.encode (%s); puncture when self.puncturer is Some (%s); output[i] = is_one(encoded[i]) over zip (%s); length asserted equal (%s)" % (bitmap, src_ok, p_ok, st_ok, asserted)
